@@ -15,9 +15,9 @@ struct M;
 impl Module for M {}
 
 const ANY: &str = "<any>";
-const SEGS: [&str; 5] = ["a", "ab", "a-b", "aß", ANY];
+const SEGS: [&str; 6] = ["a", "ab", "b", "aß", ANY, "a-b"];
 const PROPS: [&str; 2] = ["x", "y.z"];
-const MODULE_PATHS: [&str; 11] = ["a", "ab", "a-b", "aß", "a.a-b", "a.ab", "ab.a-b", "a.aß", "a.a-b.a", "a.a-b.a.a-b", "a-b.a"];
+const MODULE_PATHS: [&str; 13] = ["a", "ab", "b", "aß", "a.b", "a.ab", "ab.b", "a.aß", "a.b.a", "a.b.a.b", "b.a", "a-b", "a.a-b"];
 
 /// reference matcher: key = module path (`<any>` = exactly one segment) ++ property name
 fn matches(key: &[&str], path: &[&str]) -> Option<String> {
@@ -45,6 +45,10 @@ fn candidate_keys() -> Vec<Vec<&'static str>> {
             for _ in 0..d {
                 k.push(SEGS[c % SEGS.len()]);
                 c /= SEGS.len();
+            }
+            // the hyphenated name only in the keys a-b, a.a-b and <any>.a-b
+            if k.contains(&"a-b") && !(k == ["a-b"] || k == ["a", "a-b"] || k == [ANY, "a-b"]) {
+                continue;
             }
             for p in PROPS {
                 let mut kk = k.clone();
@@ -380,7 +384,7 @@ impl Property for C17 {
     }
     fn rule(&self, tier: Tier) -> String {
         format!(
-            "every configuration of 1..=2 distinct entries, and every configuration of 3 entries over {}, whose keys are (1..3 segments from {{a, ab, a-b, aß, <any>}}: names that continue another name with a letter, with a non-alphanumeric character and with a multi-byte character) ++ (x | y.z) = 310 candidate keys, in every file order of the entries, x include order {{before node creation, after, first entry before and the rest after}}, \
+            "every configuration of 1..=2 distinct entries, and every configuration of 3 entries over {}, whose keys are (1..3 segments from {{a, ab, b, aß, <any>}}, and the prefixes a-b, a.a-b, <any>.a-b: names that continue another name with a letter, with a multi-byte letter and with a non-alphanumeric character) ++ (x | y.z) = 316 candidate keys, in every file order of the entries, x include order {{before node creation, after, first entry before and the rest after}}, \
              on a Sim with the module tree {:?}; oracle: reference matcher from the statement (props_keys() read before any property access == names of matching entries; value is the value of a matching entry; no panic); \
              type rule: every sequence of 1..={} typed reads / writes over {{i64,u8,String,bool,f64}} and later includes of a configuration naming the property (issued while it is present: they must not touch it) on a property configured as 5 / hello / true / 1.5 / absent; \
              non-trivial = configuration in which at least one entry addresses at least one module",
